@@ -19,6 +19,7 @@ use tftpd::{Packet, Socket, Worker};
 pub fn judge_sim(dir: &Path, sc: &Scenario, obs: &mut Obs) -> Judge {
     let (r, _f, fa) = run_and_judge(dir, sc, obs, &["S9", "S1", "S2", "R1", "R2", "R5", "S6", "R4"])?;
     obs.class_if(!r.hits.is_empty(), "burst-loss-in-duplicate-mode");
+    obs.class_if(sc.peer_leaves, "uploader-leaves-after-final-ack");
     obs.nontrivial = sc.repeat >= 2 && sc.nblocks() >= 1;
     obs.class(match sc.repeat {
         1 => "N=0",
@@ -74,6 +75,10 @@ pub fn sim_strategy() -> BoxedStrategy<Scenario> {
                     }
                 }
                 sc.fates = fates;
+            }
+            // an uploader that leaves as soon as its final block is acknowledged (the other copies of that ACK hit a closed port)
+            if role == Role::Receiver && seed % 3 == 1 {
+                sc.peer_leaves = true;
             }
             sc
         })
